@@ -827,6 +827,43 @@ def m_normalize(interp, args, kw):
     return s
 
 
+_NFKC_DELIMS = None
+
+
+def _nfkc_delims():
+    """code points whose NFKC form contains one of '/?#@:' (computed by asking CPython).  Composition never
+    consumes one of these ASCII delimiters (checked exhaustively over all pairs delimiter + code point when the
+    set is built), so NFKC(s) contains a delimiter that s does not iff s contains one of these code points."""
+    global _NFKC_DELIMS
+    if _NFKC_DELIMS is None:
+        import unicodedata as U
+        bad = []
+        for cp in range(0x80, 0x110000):
+            if 0xD800 <= cp <= 0xDFFF:
+                continue
+            n = U.normalize("NFKC", chr(cp))
+            if "/" in n or "?" in n or "#" in n or "@" in n or ":" in n:
+                bad.append((cp, cp))
+        _NFKC_DELIMS = C.CharSet(bad, "nfkc-delims")
+    return _NFKC_DELIMS
+
+
+def m_checknetloc(interp, args, kw):
+    """urllib.parse._checknetloc: ValueError iff the netloc holds a character whose NFKC form contains a delimiter"""
+    netloc = args[0]
+    if not has_sym(netloc):
+        return NATIVE
+    cs = _nfkc_delims()
+    for c in elems(netloc):
+        if isinstance(c, int):
+            hit = cs.contains_int(c) if hasattr(cs, "contains_int") else any(lo <= c <= hi for lo, hi in cs.ranges)
+        else:
+            hit = br(cs.cond(c))
+        if hit:
+            raise ValueError("netloc contains invalid characters under NFKC normalization")
+    return None
+
+
 def m_unescape(interp, args, kw):
     s = args[0]
     if not has_sym(s):
@@ -850,4 +887,5 @@ FUNC_MODELS = {
     re.findall: m_re_fn("findall"),
     urllib.parse.quote: m_quote,
     unicodedata.normalize: m_normalize,
+    urllib.parse._checknetloc: m_checknetloc,
 }
